@@ -1,7 +1,15 @@
-(* C12 — Chebyshev interpolation is exact on polynomials.  Only statements, each closed by [exact]. *)
-From Coq Require Import List Arith Lia PeanoNat ZArith.
-From TV Require Import Num.Ops Lin.Tab Lin.BigSum Lin.Mat TT.Chain Model.Func Model.FuncFull Proofs.FuncP.
+(* C12 — Chebyshev interpolation is exact on polynomials.  Only statements, each closed by [exact] (or one line of glue).
+   Part I  : ring-generic statements (every commutative ring / every field-like number structure K).
+   Part II : statements at the reals R (OR), where cs N m = cos(pi m/N), sn N m = sin(pi m/N) (csR, snR).
+   Notation: chain 1 Y 1 = the cores of Y have matching ranks, outer ranks 1;  inb ns idx = multi-index inside the shape;
+   get K Y idx = entry of the TT-tensor;  tget K A idx = entry of a dense array;  tfull K Y = dense array of Y. *)
+From Coq Require Import List Arith Lia PeanoNat ZArith Bool Reals QArith Qcanon.
+From TV Require Import Num.Ops Lin.Tab Lin.BigSum Lin.Mat TT.Chain Model.Func Model.FuncFull
+  Proofs.FuncP Proofs.FuncFullP Proofs.FuncTrigP Proofs.FuncExactP Proofs.FuncWeightsP Proofs.FuncInt1P Proofs.FuncSpanP Proofs.FuncDiffP Proofs.FuncGenExP.
 Import ListNotations.
+Local Open Scope nat_scope.
+
+(* ================================================================ Part I: ring-generic *)
 
 (* func_basis computes the Chebyshev polynomials: T_0 = 1, T_1 = x, T_{k+2} = 2 x T_{k+1} - T_k (any commutative ring) *)
 Theorem C12_basis_cheb : forall T (K : ops T), rng K -> forall x,
@@ -12,3 +20,230 @@ Proof.
   intros T K Rth x. split; [intros; now apply nth_func_basis1|]. split; [reflexivity|]. split; [reflexivity|].
   exact (chebT_SS K x).
 Qed.
+
+(* modewise_linear: applying matrices M_k to the mode axes of the cores applies them mode-wise to the tensor *)
+Theorem C12_modewise_linear : forall T (K : ops T), rng K -> forall Y Ms idx,
+  chain 1 Y 1 -> length Ms = length Y -> inb (map fst Ms) idx ->
+  get K (tmode K Ms Y) idx = msum K (shape Y) (fun jdx => omul K (mprod K (map snd Ms) idx jdx) (get K Y jdx)).
+Proof. exact (@modewise_linear). Qed.
+
+(* func_get inside the box (not skipped) = the polynomial  sum_m A[m] prod_k T_{m_k}(scaled x_k) ;
+   func_gets on any grid = that polynomial at the nodes;  func_sum = prod (b_k-a_k)/2 * sum_m A[m] prod_k w_{m_k} *)
+Theorem C12_func_get_poly : forall T (K : ops T), rng K -> forall tol x A a b z skip, chain 1 A 1 ->
+  length x = length A -> length a = length A -> length b = length A -> skip && out_box K tol x a b = false ->
+  func_get1 K tol x A a b z skip = polyv K (shape A) (get K A) (scaled K x a b).
+Proof. exact (@func_get1_in). Qed.
+Theorem C12_func_gets_poly : forall T (K : ops T), rng K -> forall cs sn A ms jdx,
+  chain 1 A 1 -> length ms = length A -> inb ms jdx ->
+  get K (func_gets K cs sn A ms Cheb) jdx = polyv K (shape A) (get K A) (nodesU K cs ms jdx).
+Proof. exact (@get_gets_cheb). Qed.
+Theorem C12_func_sum_spec : forall T (K : ops T), rng K -> forall kind A a b,
+  chain 1 A 1 -> length a = length A -> length b = length A ->
+  func_sum K A a b kind = omul K (vol K a b) (msum K (shape A) (fun m => omul K (wsprod K kind m) (get K A m))).
+Proof. exact (@func_sum_msum). Qed.
+
+(* func_get with custom basis functions: ts = rows of values the user's functions returned at the point (first n_k kept) *)
+Theorem C12_func_get_custom_spec : forall T (K : ops T), rng K -> forall tol x A a b z ts, chain 1 A 1 -> length ts = length A ->
+  func_get1_rows K tol x A a b z false ts = msum K (shape A) (fun idx => omul K (bprod K ts idx) (get K A idx)).
+Proof. intros. unfold func_get1_rows. cbn [andb]. now apply contract_basis_msum. Qed.
+
+(* fill value: a skipped point receives z (TT and dense);  skipping is decided by out_box (Part II says when) *)
+Theorem C12_fill_value : forall T (K : ops T) tol x A a b z, out_box K tol x a b = true -> func_get1 K tol x A a b z true = z.
+Proof. exact (@func_get1_out). Qed.
+Theorem C12_fill_value_full : forall T (K : ops T) tol x ns A a b z, out_box K tol x a b = true ->
+  func_get_full1 K tol x ns A a b z true = z.
+Proof. exact (@func_get_full1_out). Qed.
+
+(* tt_eq_dense, evaluation: func_get on a TT-tensor = func_get_full on its dense array, at every point (in or out) *)
+Theorem C12_tt_eq_dense_get : forall T (K : ops T), rng K -> forall tol x A a b z skip, chain 1 A 1 ->
+  length x = length A -> length a = length A -> length b = length A ->
+  func_get_full1 K tol x (shape A) (tfull K A) a b z skip = func_get1 K tol x A a b z skip.
+Proof. exact (@func_get_tt_eq_dense). Qed.
+
+(* func_sum_full raises ValueError as soon as one dimension fails the symmetry test | |b_k| - |a_k| | <= 1e-16 *)
+Theorem C12_sum_full_rejects : forall T (K : ops T) tol16 ns A a b,
+  existsb (fun p => asym K tol16 (fst p) (snd p)) (combine a b) = true -> func_sum_full K tol16 ns A a b = Err ValueError.
+Proof. exact (@func_sum_full_rejects). Qed.
+
+(* the Chebyshev transform needs n_k >= 2 (scipy's DCT-I raises for a length-1 axis) *)
+Theorem C12_func_int_needs_two : forall T (K : ops T) cs sn Y,
+  ~ Forall (fun G => 2 <= cn G) Y -> func_int K cs sn Y Cheb = Err OtherError.
+Proof. exact (@func_int_cheb_err). Qed.
+
+(* func_int_general, for every routine lstsq that meets the contract AT THE CALL (lstsq_ok k H M: "if H Q = M is
+   consistent, the returned Q has the right shape and zero residual"; gmat G is the right-hand side the code builds):
+   data whose mode fibres lie in the span of the basis matrix H are reproduced at the sample points, and with full column
+   rank the fitted coefficient core IS the coefficient core (core by core, and for the whole TT-tensor) *)
+Theorem C12_general_core_reproduces : forall T (K : ops T) lstsq k H G C,
+  lstsq_ok K lstsq k H (gmat K G) -> in_span K H G C ->
+  ceq K (cmode K (mr H) (mget K H) (general_core K lstsq k H G)) G.
+Proof. exact (@general_core_reproduces). Qed.
+Theorem C12_general_core_exact : forall T (K : ops T) lstsq k H G C,
+  lstsq_ok K lstsq k H (gmat K G) -> in_span K H G C -> full_col_rank K H -> ceq K (general_core K lstsq k H G) C.
+Proof. exact (@general_core_exact). Qed.
+Theorem C12_int_general_exact : forall T (K : ops T) lstsq, (forall k H M, lstsq_ok K lstsq k H M) ->
+  forall Y Hs Cs, Forall2 (fun HG C => in_span K (fst HG) (snd HG) C /\ full_col_rank K (fst HG)) (combine Hs Y) Cs ->
+  length Hs = length Y ->
+  Forall2 (ceq K) (func_int_general K lstsq Y Hs) Cs /\
+  forall idx, inb (shape (func_int_general K lstsq Y Hs)) idx -> get K (func_int_general K lstsq Y Hs) idx = get K Cs idx.
+Proof.
+  intros T K lstsq Hl Y Hs Cs HF L. pose proof (general_from_exact K lstsq Hl Y Hs Cs O HF L) as H.
+  split; [exact H|]. intros idx Hi. now apply get_ceq.
+Qed.
+(* non-vacuity: identity basis matrix over any ring, and a concrete instance over Qc *)
+Theorem C12_general_hyp_sat : forall T (K : ops T), rng K -> forall k G,
+  lstsq_ok K ls_id k (mid K (cn G)) (gmat K G) /\ in_span K (mid K (cn G)) G G /\ full_col_rank K (mid K (cn G)).
+Proof.
+  intros T K Rth k G. split; [exact (ls_id_ok K Rth k (gmat K G))|]. split; [now apply in_span_id | now apply full_col_rank_id].
+Qed.
+Example C12_general_nonvacuous :
+  lstsq_ok OQc ls_id 0 (mid OQc 2) (gmat OQc exG) /\ in_span OQc (mid OQc 2) exG exG /\ full_col_rank OQc (mid OQc 2) /\
+  ceq OQc (general_core OQc ls_id 0 (mid OQc 2) exG) exG.
+Proof. exact general_example. Qed.
+
+(* ================================================================ Part II: at the reals *)
+
+(* T_k(cos t) = cos(k t) for the polynomials func_basis computes *)
+Theorem C12_basis_cheb_cos : forall t k, chebT OR (cos t) k = cos (INR k * t).
+Proof. exact chebT_cos'. Qed.
+
+(* DCT-I orthogonality, every N >= 1, 0 <= a, b <= N.  SS2 N a b = sum_{j=0..N} e_j cos(pi j a/N) cos(pi j b/N) with
+   e_0 = e_N = 1, e_j = 2 otherwise (twice the sum with halved end terms) *)
+Theorem C12_dct_orthogonal : forall N a b, 1 <= N -> a <= N -> b <= N ->
+  SS2 N a b = if Nat.eqb a b then (if Nat.eqb a 0 || Nat.eqb a N then 2 * INR N else INR N)%R else 0%R.
+Proof. exact dct_orthogonal. Qed.
+(* DST-I orthogonality, 1 <= a, b <= M-1: SSs M a b = 2 sum_{j=1..M-1} sin(pi j a/M) sin(pi j b/M) *)
+Theorem C12_dst_orthogonal : forall M a b, 1 <= a < M -> 1 <= b < M -> SSs M a b = if Nat.eqb a b then INR M else 0%R.
+Proof. exact dst_orthogonal. Qed.
+
+(* HEADLINE, TT format.  Y = values on the Chebyshev grid (sizes n_k >= 2) of the box [a, b] (a_k < b_k, symmetric or
+   not) of the polynomial with Chebyshev coefficient tensor c (degree < n_k in x_k; c arbitrary, any TT-rank).  Then
+   func_int succeeds and returns A with: entries of A = c;  func_get = the polynomial at every point of the box;
+   func_gets on ANY new grid = the polynomial at the nodes of that grid;  func_gets on the same grid = Y. *)
+Theorem C12_interp_exact : forall Y c a b, chain 1 Y 1 -> Forall (fun n => 2 <= n) (shape Y) ->
+  length a = length Y -> length b = length Y -> Forall2 Rlt a b ->
+  (forall jdx, inb (shape Y) jdx -> get OR Y jdx = cpoly (shape Y) c a b (gridpt a b (shape Y) jdx)) ->
+  exists A, func_int OR csR snR Y Cheb = Ok A /\ chain 1 A 1 /\ shape A = shape Y /\
+    (forall idx, inb (shape Y) idx -> get OR A idx = c idx) /\
+    (forall tol x z skip, (0 <= tol)%R -> length x = length Y -> in_box x a b ->
+       func_get1 OR tol x A a b z skip = cpoly (shape Y) c a b x) /\
+    (forall ms jdx, length ms = length Y -> inb ms jdx ->
+       get OR (func_gets OR csR snR A ms Cheb) jdx = cpoly (shape Y) c a b (gridpt a b ms jdx)) /\
+    (forall jdx, inb (shape Y) jdx -> get OR (func_gets OR csR snR A (shape Y) Cheb) jdx = get OR Y jdx).
+Proof. exact interp_exact. Qed.
+(* non-vacuity: the hypotheses hold for the samples of EVERY coefficient TT-tensor C, and a concrete one exists *)
+Theorem C12_interp_exact_hyp_sat : forall C a b, chain 1 C 1 -> length a = length C -> Forall2 Rlt a b ->
+  let Y := func_gets OR csR snR C (shape C) Cheb in
+  chain 1 Y 1 /\ shape Y = shape C /\
+  forall jdx, inb (shape Y) jdx -> get OR Y jdx = cpoly (shape Y) (get OR C) a b (gridpt a b (shape Y) jdx).
+Proof. exact interp_hyp_sat. Qed.
+Example C12_interp_exact_nonvacuous : exists Y c a b,
+  chain 1 Y 1 /\ Forall (fun n => 2 <= n) (shape Y) /\ length a = length Y /\ length b = length Y /\ Forall2 Rlt a b /\
+  (forall jdx, inb (shape Y) jdx -> get OR Y jdx = cpoly (shape Y) c a b (gridpt a b (shape Y) jdx)).
+Proof. exact interp_hyp_example. Qed.
+
+(* HEADLINE, dense format (func_int_full / func_get_full / func_gets_full), any number of dimensions incl. d = 1 *)
+Theorem C12_interp_exact_full : forall ns Y c a b, Forall (fun n => 2 <= n) ns ->
+  length a = length ns -> length b = length ns -> Forall2 Rlt a b ->
+  (forall jdx, inb ns jdx -> tget OR Y jdx = cpoly ns c a b (gridpt a b ns jdx)) ->
+  let A := func_int_full OR csR ns Y in
+    (forall idx, inb ns idx -> tget OR A idx = c idx) /\
+    (forall tol x z skip, (0 <= tol)%R -> length x = length ns -> in_box x a b ->
+       func_get_full1 OR tol x ns A a b z skip = cpoly ns c a b x) /\
+    (forall tol ms jdx, (0 <= tol)%R -> length ms = length ns -> inb ms jdx ->
+       tget OR (func_gets_full OR csR tol ns A ms) jdx = cpoly ns c a b (gridpt a b ms jdx)).
+Proof. exact interp_exact_full. Qed.
+
+(* re-sampling on the same grid inverts the coefficient transform for ARBITRARY data (not only polynomials) *)
+Theorem C12_resample_inverse_cheb : forall Y jdx, chain 1 Y 1 -> Forall (fun n => 2 <= n) (shape Y) -> inb (shape Y) jdx ->
+  get OR (func_gets OR csR snR (map (int_core OR csR snR Cheb) Y) (shape Y) Cheb) jdx = get OR Y jdx.
+Proof. exact resample_inverse_cheb. Qed.
+(* sine kind: func_gets(func_int(Y, 'sin'), kind='sin') on the same grid is Y, any mode sizes *)
+Theorem C12_resample_inverse_sin : forall Y jdx, chain 1 Y 1 -> inb (shape Y) jdx ->
+  get OR (func_gets OR csR snR (map (int_core OR csR snR Sin) Y) (shape Y) Sin) jdx = get OR Y jdx.
+Proof. exact resample_inverse_sin. Qed.
+Theorem C12_func_int_sin_ok : forall Y, func_int OR csR snR Y Sin = Ok (map (int_core OR csR snR Sin) Y).
+Proof. reflexivity. Qed.
+(* the coefficient transform is linear *)
+Theorem C12_int_linear : forall Y Y1 Y2 al be idx,
+  chain 1 Y 1 -> chain 1 Y1 1 -> chain 1 Y2 1 -> shape Y1 = shape Y -> shape Y2 = shape Y ->
+  Forall (fun n => 2 <= n) (shape Y) -> inb (shape Y) idx ->
+  (forall jdx, inb (shape Y) jdx -> get OR Y jdx = (al * get OR Y1 jdx + be * get OR Y2 jdx)%R) ->
+  get OR (map (int_core OR csR snR Cheb) Y) idx =
+  (al * get OR (map (int_core OR csR snR Cheb) Y1) idx + be * get OR (map (int_core OR csR snR Cheb) Y2) idx)%R.
+Proof. exact int_cheb_linear_R. Qed.
+
+(* points of the box are never skipped (any tolerance >= 0), points that leave it by more than the tolerance in one
+   coordinate get the fill value (TT and dense) *)
+Theorem C12_in_box_not_skipped : forall tol x a b, (0 <= tol)%R -> length a = length x -> length b = length x ->
+  in_box x a b -> out_box OR tol x a b = false.
+Proof. exact out_box_in. Qed.
+Theorem C12_fill_value_R : forall tol x A a b z k, k < length x -> k < length a -> k < length b ->
+  (tol < nth k a 0 - nth k x 0 \/ tol < nth k x 0 - nth k b 0)%R -> func_get1 OR tol x A a b z true = z.
+Proof. exact get_fill. Qed.
+Theorem C12_fill_value_full_R : forall tol x ns A a b z k, k < length x -> k < length a -> k < length b ->
+  (tol < nth k a 0 - nth k x 0 \/ tol < nth k x 0 - nth k b 0)%R -> func_get_full1 OR tol x ns A a b z true = z.
+Proof. exact get_full_fill. Qed.
+
+(* tt_eq_dense: coefficients, re-sampling, integral (evaluation is C12_tt_eq_dense_get) *)
+Theorem C12_tt_eq_dense_int : forall Y idx, chain 1 Y 1 -> Forall (fun n => 2 <= n) (shape Y) -> inb (shape Y) idx ->
+  tget OR (func_int_full OR csR (shape Y) (tfull OR Y)) idx = get OR (map (int_core OR csR snR Cheb) Y) idx.
+Proof. exact func_int_tt_eq_dense_R. Qed.
+Theorem C12_tt_eq_dense_gets : forall tol A ms jdx, chain 1 A 1 -> (0 <= tol)%R -> length ms = length A -> inb ms jdx ->
+  tget OR (func_gets_full OR csR tol (shape A) (tfull OR A) ms) jdx = get OR (func_gets OR csR snR A ms Cheb) jdx.
+Proof. exact func_gets_tt_eq_dense. Qed.
+Theorem C12_tt_eq_dense_sum : forall tol16 A a b, chain 1 A 1 -> length a = length A -> length b = length A ->
+  existsb (fun p => asym OR tol16 (fst p) (snd p)) (combine a b) = false ->
+  func_sum_full OR tol16 (shape A) (tfull OR A) a b = Ok (func_sum OR A a b Cheb).
+Proof. exact func_sum_tt_eq_dense_R. Qed.
+
+(* the weights of func_sum / func_sum_full are the integrals of the Chebyshev polynomials over [-1, 1], EVERY k:
+   w_k = 2/(1-k^2) for even k, 0 for odd k, equals P(1) - P(-1) for an antiderivative P of T_k on R *)
+Theorem C12_cheb_weights : forall k, exists P : R -> R,
+  (forall x, derivable_pt_lim P x (chebT OR x k)) /\ (P 1 - P (-1))%R = wsum OR Cheb k.
+Proof. exact cheb_weights. Qed.
+Theorem C12_cheb_weights_value : forall k, wsum OR Cheb k = if Nat.even k then (2 / (1 - INR k * INR k))%R else 0%R.
+Proof. exact wsum_cheb_R. Qed.
+
+(* the exactness class: every sum of products of one-variable polynomials p_{t,k} of degree < n_k (given by monomial
+   coefficients) is cpoly ns c a b for some coefficient tensor c, so C12_interp_exact(_full) covers all of them *)
+Theorem C12_exactness_class : forall ns (terms : list (list (nat -> R))) a b,
+  Forall (fun t => length t = length ns) terms -> length a = length ns -> length b = length ns ->
+  exists c : list nat -> R, forall x, length x = length ns -> cpoly ns c a b x = sumprod ns terms (affs x a b).
+Proof. exact exactness_class_box. Qed.
+Theorem C12_poly_cheb_span : forall n (b : nat -> R), exists c : nat -> R,
+  forall x, bsum OR n (fun q => (b q * x ^ q)%R) = bsum OR n (fun k => (c k * chebT OR x k)%R).
+Proof. exact poly_cheb_span. Qed.
+
+(* func_sum_full accepts every symmetric box (any tolerance >= 0 in the symmetry test) *)
+Theorem C12_sum_full_accepts_symmetric : forall tol16 ns A b, (0 <= tol16)%R -> length b = length ns ->
+  func_sum_full OR tol16 ns A (map Ropp b) b =
+  Ok (omul OR (vol OR (map Ropp b) b) (msum OR ns (fun m => omul OR (wsprod OR Cheb m) (tget OR A m)))).
+Proof. exact sum_full_accepts_symmetric. Qed.
+(* PARTIAL (one variable only): func_sum (any box a < b) and func_sum_full (symmetric box) return the exact integral of
+   the polynomial func_get / func_get_full evaluate: F(b) - F(a) for an antiderivative F on R.  Missing: d > 1 (the
+   iterated integral; the algebraic product formula is C12_func_sum_spec, the weights are C12_cheb_weights). *)
+Theorem C12_sum_exact_1d_partial : forall G a b, chain 1 [G] 1 -> (a < b)%R -> exists F : R -> R,
+  (forall x, derivable_pt_lim F x (cpoly [cn G] (get OR [G]) [a] [b] [x])) /\ (F b - F a)%R = func_sum OR [G] [a] [b] Cheb.
+Proof. exact sum_exact_1d. Qed.
+Theorem C12_sum_full_exact_1d_partial : forall tol16 n A h, (0 <= tol16)%R -> (0 < h)%R -> exists (v : R) (F : R -> R),
+  func_sum_full OR tol16 [n] A [(- h)%R] [h] = Ok v /\
+  (forall x, derivable_pt_lim F x (cpoly [n] (tget OR A) [(- h)%R] [h] [x])) /\ (F h - F (- h))%R = v.
+Proof. exact sum_full_exact_1d. Qed.
+
+(* ================================================================ Part III: func_diff_matrix *)
+(* every box, every n, m: the s-th returned matrix = s-th iterate of the box-independent recursion * (2/(b-a))^(s+1) *)
+Theorem C12_diff_matrix_scaling : forall T (K : ops T) ss a b n m s dflt, s < m ->
+  nth s (func_diff_matrix K ss a b n m) dflt =
+  mkmat n n (fun r c => omul K (mget K (diff_iter K n (diff_Z K ss n) (diff_C K n) (mid K n) 0 s) r c)
+                               (fpow K (odiv K (ftwo K) (osub K b a)) (0 + s + 1))).
+Proof. intros. unfold func_diff_matrix. now apply nth_diff_loop. Qed.
+(* PARTIAL (only n in {2,3,4}, derivative orders 1..3; exact rational nodes 1, 1/2, 0, -1/2, -1; Qc arithmetic):
+   for EVERY box and EVERY polynomial p(x) = sum_{q<n} c_q x^q, the (s+1)-th matrix applied to the values of p at the
+   nodes gives (2/(b-a))^(s+1) p^(s+1) at the nodes.  Missing: general n (validated numerically by the search). *)
+Theorem C12_diff_matrix_exact_partial : forall n s m a b (c : nat -> Qc) i, n = 2 \/ n = 3 \/ n = 4 -> s < 3 -> s < m -> i < n ->
+  bsum OQc n (fun j => omul OQc
+      (mget OQc (nth s (func_diff_matrix OQc ss_Qc a b n m) (mkmat 0 0 (fun _ _ => o0 OQc))) i j)
+      (pval n c (xnode n j))) =
+  omul OQc (fpow OQc (odiv OQc (ftwo OQc) (osub OQc b a)) (s + 1)) (pder n (s + 1) c (xnode n i)).
+Proof. exact diff_exact_small. Qed.
